@@ -138,6 +138,25 @@ def observe(conv, sig, spec, data):
     return ("ok", vals, list(ba.arguments.get("args", ())), dict(ba.arguments.get("kwargs", {})))
 
 
+def scribble(v):
+    """Mutate every list/dict inside v in place (what sort/pop/append/clear in an actor amount to). True if anything changed."""
+    changed = False
+    if isinstance(v, list):
+        for x in list(v):
+            changed |= scribble(x)
+        v.append("scribbled")
+        changed = True
+    elif isinstance(v, dict):
+        for x in list(v.values()):
+            changed |= scribble(x)
+        v["scribbled"] = True
+        changed = True
+    elif isinstance(v, tuple):
+        for x in v:
+            changed |= scribble(x)
+    return changed
+
+
 def shape(spec):
     return ",".join((p["kind"] if p["kind"] != "dep" else "dep-" + p["dep_kind"]) + ("=" if p.get("has_default") else "") + (":" + p["anno"] if "anno" in p else "") for p in spec)
 
@@ -192,6 +211,14 @@ def sigs_case(case, out, stats, fps, samples):
                     out.append(V("bound_wrong", ctx, f"{where}: (got, expected) {diff}"))
                 if o[2] != ref[2] or o[3] != ref[3]:
                     out.append(V("extras_misplaced", ctx, f"{where}: extras got args={o[2]} kwargs={o[3]}, expected args={ref[2]} kwargs={ref[3]}"))
+                # an actor may do what it likes with its arguments: a later execution with the same payload (a retry, the
+                # next run of a recurring job, an equal job) still gets the payload's values
+                # (only what came out of the payload: a default is the function's own object, shared by Python itself)
+                if scribble([[v for k, v in o[1].items() if k in (payload or {})], o[2], o[3]]):
+                    stats["rebinds_after_mutation"] += 1
+                    o2 = observe(conv, sig, spec, data)
+                    if o2[0] != "ok" or o2[1] != ref[1] or o2[2] != ref[2] or o2[3] != ref[3]:
+                        out.append(V("bound_wrong", f"{cname}/second-execution-after-arguments-were-mutated", f"{where}: after the first execution changed its arguments in place, an equal payload binds {str(o2[1:])[:200]} (expected {str(ref[1:])[:200]})"))
             if len(obs) == 2 and ref[0] == "ok":
                 stats["converters_compared"] += 1
                 b, p = obs["basic"], obs["pydantic"]
